@@ -94,7 +94,20 @@ public:
         if (auto ptr = find_unused())
         {
             FOONATHAN_MEMORY_ASSERT(ptr->in_use_);
+#if FOONATHAN_HAS_EXCEPTION_SUPPORT
+            try
+            {
+                ptr->stack_ = detail::temporary_stack_impl(size);
+            }
+            catch (...)
+            {
+                // the stack was not acquired after all, give it back
+                ptr->in_use_ = false;
+                throw;
+            }
+#else
             ptr->stack_ = detail::temporary_stack_impl(size);
+#endif
             return ptr;
         }
         return create_new(size);
